@@ -1,6 +1,8 @@
 package checks
 
 import (
+	"verif/internal/engine"
+	"verif/internal/bdd"
 	"fmt"
 	"go/types"
 	"sort"
@@ -245,6 +247,73 @@ func c10(cx *Ctx, r *ev.Report) {
 	}
 	r.Analysed["arm_summaries_examined"] = narm
 	r.AddFloor("arm_summaries_examined", narm, 1786)
+	// the same for Step itself (request handling around the decoder) and for the
+	// instructions a mode-0 request supplies
+	ruleRS := "READ/WRITE-SET(Step): the Step summary depends only on States fields, the pending request (type, data), nil-ness of the attachments, what the decoder left and bytes returned by devices; it stores nothing outside the CPU"
+	if sa := cx.stepAnalysis(); sa.err != nil {
+		r.Undecide("C10/read-write-set/step", ruleRS, cx.P.Pos(cx.E.Step.Pos()), sa.err.Error())
+	} else {
+		var det []string
+		sup := map[string]bool{}
+		addAtoms := func(bs ...bdd.Node) {
+			for _, a := range sa.c.AtomsIn(bs...) {
+				sup[a] = true
+			}
+		}
+		for k, v := range sa.impl.Loc {
+			if v.Equal(sa.c.Atom("Init("+k+")", len(v))) {
+				continue // untouched: its own initial value is no dependency
+			}
+			// the value a location keeps on the paths that leave it alone is no dependency either
+			own := map[string]bool{}
+			for _, a := range sa.c.AtomsIn(v...) {
+				own[a] = true
+			}
+			delete(own, "Init("+k+")")
+			for a := range own {
+				sup[a] = true
+			}
+		}
+		for i := range sa.impl.Trace.Events {
+			e := &sa.impl.Trace.Events[i]
+			addAtoms(e.Guard)
+			for _, a := range e.Args {
+				addAtoms(a...)
+			}
+			if strings.HasPrefix(e.Kind, "Global") {
+				det = append(det, "Step reads package-level state: "+sa.c.DescribeEvent(e))
+			}
+		}
+		for a := range sup {
+			switch {
+			case strings.HasPrefix(a, "Init(Interrupt") || strings.HasPrefix(a, "len(Interrupt") || strings.HasPrefix(a, "IsNil(") || strings.HasPrefix(a, "PostExec") ||
+				strings.HasPrefix(a, "Memory.Get(") || strings.HasPrefix(a, "IO.In(") || strings.HasPrefix(a, "probe."):
+			case strings.HasPrefix(a, "Init("):
+				f := strings.TrimSuffix(strings.TrimPrefix(a, "Init("), ")")
+				if !states[f] {
+					det = append(det, "Step depends on CPU."+f+", which is not part of States (a CPU rebuilt from States and memory behaves differently)")
+				}
+			default:
+				det = append(det, "Step depends on "+a)
+			}
+		}
+		for _, x := range sa.impl.Extra {
+			det = append(det, "Step stores to "+x+" (outside the CPU's documented fields)")
+		}
+		sort.Strings(det)
+		r.Check(len(det) == 0, "C10/read-write-set/step", ruleRS, cx.P.Pos(cx.E.Step.Pos()), "support", det...)
+		for _, ic := range sa.im0 {
+			key := "C10/read-write-set/im0=" + ic.name
+			if ic.und != nil {
+				r.Undecide(key, ruleRS, cx.P.Pos(cx.E.Step.Pos()), ic.und.Error())
+				continue
+			}
+			ds := diffStrings(ic.diffs, func(d engine.Diff) bool {
+				return d.Cat == "effect" || d.Cat == "event" && (strings.HasPrefix(d.What, "Global") || d.What == "Panic")
+			})
+			r.Check(len(ds) == 0, key, ruleRS, cx.P.Pos(cx.E.Step.Pos()), "support", ds...)
+		}
+	}
 
 	// 5. snapshot: States is a plain value type, and everything in CPU is exported
 	var refs, unexp []string
